@@ -230,6 +230,9 @@ func genTruth(stream string) []GenCase {
 			c := Case{ID: fmt.Sprintf("%s-%d", stream, id), Script: fmt.Sprintf(p.tmpl, v.expr), Opt: id%2 == 0, Fns: truthFns(), Show: []string{"spec"},
 				Tags: []string{"pos:" + p.name, v.class}, Runs: []Run{{Obj: truthObject(), Polls: defaultPolls}}}
 			id++
+			if p.name == "verdict" {
+				c.Show = append(c.Show, "runbool") // the boolean Run hands to the host is one more position of the same rule
+			}
 			gc := GenCase{Case: c, Stream: stream, NonTrivial: true}
 			if p.name != "not-not" {
 				gc.Pair = fmt.Sprintf("truth-%d", vi)
